@@ -87,7 +87,7 @@ func c14ChurnOnce(seed int64, tname string, workers, per int) *c14ChurnRun {
 		run.Setup = err.Error()
 		return run
 	}
-	defer tr.Close()
+	defer c14CloseGuarded(tr)
 	var mu sync.Mutex
 	var seq atomic.Int64
 	one := func() {
@@ -97,7 +97,7 @@ func c14ChurnOnce(seed int64, tname string, workers, per int) *c14ChurnRun {
 		const deadline = 3 * time.Second
 		ctx, cancel := context.WithTimeout(context.Background(), deadline)
 		t0 := time.Now()
-		m, err := tr.ExchangeContext(ctx, q)
+		m, err := c14Guarded(tr, ctx, q, deadline+c14GiveUp)
 		took := time.Since(t0)
 		cancel()
 		if m != nil {
@@ -146,6 +146,38 @@ func c14ChurnOnce(seed int64, tname string, workers, per int) *c14ChurnRun {
 		run.Accepts = b.srv.Accepts()
 	}
 	return run
+}
+
+// c14Guarded runs one exchange and gives up on it after limit: an exchange that does not come
+// back at all (a transport frozen on a lock that ignores the context) is reported as an error the
+// caller sees long after its deadline, it does not hang the check.
+func c14Guarded(tr transport.Transport, ctx context.Context, q []byte, limit time.Duration) (*dnsmsg.Msg, error) {
+	type out struct {
+		m   *dnsmsg.Msg
+		err error
+	}
+	ch := make(chan out, 1)
+	go func() {
+		m, err := tr.ExchangeContext(ctx, q)
+		ch <- out{m, err}
+	}()
+	select {
+	case o := <-ch:
+		return o.m, o.err
+	case <-time.After(limit):
+		return nil, fmt.Errorf("no return %v after the call; exchange abandoned by the harness", limit)
+	}
+}
+
+// c14CloseGuarded closes a transport without waiting for more than 3 s (a frozen transport may
+// never return from Close; that is C18's subject, here it must not hang the check).
+func c14CloseGuarded(tr transport.Transport) {
+	done := make(chan struct{})
+	go func() { tr.Close(); close(done) }()
+	select {
+	case <-done:
+	case <-time.After(3 * time.Second):
+	}
 }
 
 type c14SlowCloseConn struct {
@@ -303,7 +335,7 @@ func c14Exhaust(c *Ctx) {
 			ctx, cancel := context.WithTimeout(context.Background(), deadline)
 			defer cancel()
 			t0 := time.Now()
-			m, err := tr.ExchangeContext(ctx, q)
+			m, err := c14Guarded(tr, ctx, q, deadline+c14GiveUp)
 			if m != nil {
 				dnsmsg.ReleaseMsg(m)
 			}
@@ -311,7 +343,7 @@ func c14Exhaust(c *Ctx) {
 		}
 		if _, err := one("warm", 3*time.Second); err != nil {
 			c.Inconclusive("exhaustion: warm-up exchange failed: " + err.Error())
-			tr.Close()
+			c14CloseGuarded(tr)
 			b.close()
 			continue
 		}
@@ -334,7 +366,7 @@ func c14Exhaust(c *Ctx) {
 		wg.Wait()
 		if failed.Load() > 0 || b.srv.Accepts() != 1 {
 			c.Inconclusive(fmt.Sprintf("exhaustion %s: id run did not stay on one healthy connection (failed %d, connections %d)", tname, failed.Load(), b.srv.Accepts()))
-			tr.Close()
+			c14CloseGuarded(tr)
 			b.close()
 			continue
 		}
@@ -362,7 +394,7 @@ func c14Exhaust(c *Ctx) {
 			}
 		}
 		conns := b.srv.Accepts()
-		tr.Close()
+		c14CloseGuarded(tr)
 		b.close()
 		c.Ev.Count("exhaustion_exchanges:"+tname, seq.Load())
 		c.Ev.Count("exhaustion_connections:"+tname, int64(conns))
